@@ -577,7 +577,9 @@ def r04_8(ctx: Ctx) -> None:
         if not stores:
             continue
         kept = txt(stores[0].targets[0].value)
-        cur = loop.target.id
+        from ..loopview import view as _loop_view
+        lview = _loop_view(func, loop.iter, loop.target, loop.body)
+        cur = lview.elem if lview is not None and lview.elem else loop.target.id
         prev_names = {n.value.id for n in walk_local(loop) if isinstance(n, ast.Attribute) and n.attr in ("end", "start")
                       and isinstance(n.value, ast.Name) and n.value.id not in (cur,)}
         prev_names = {p for p in prev_names if any(isinstance(x, ast.Compare) and p in txt(x) and cur in txt(x) for x in walk_local(loop))}
